@@ -150,14 +150,25 @@ def envelope_oracle(
     env, _raw = envelope_of(op, ev)
     if env is None:
         return out  # no envelope, nothing for this clause to judge
-    error_made = bool(op.get("misuse")) or bool(ev.get("fault_fired"))
+    reached_main = bool(ev.get("fault_fired")) and str(ev.get("fault_caught_in", "")).endswith("__main__.py:main")
+    error_made = bool(op.get("misuse")) or reached_main
     if not isinstance(env, dict) or "success" not in env or "error" not in env or "result" not in env:
         out.append(mm("envelope_shape", "success/error/result", sorted(env) if isinstance(env, dict) else str(type(env))))
         return out
     if env["success"] != (env["error"] is None):
         out.append(mm("success_vs_error", {"success": env["error"] is None}, {"success": env["success"], "error": env["error"]}))
-    if (env["error"] is not None) != error_made:
-        out.append(mm("error_vs_occurred", {"error_present": error_made}, {"error": env["error"]}))
+    seen = ev.get("handle_output_error")
+    if isinstance(seen, list) and seen and seen[0] != "<unbound>":
+        # ground truth: what main() had decided occurred when it produced the envelope
+        if env["success"] != (seen[0] is None):
+            out.append(mm("success_vs_occurred", {"success": seen[0] is None}, {"success": env["success"], "main_saw_error": seen[0]}))
+        if env["error"] != seen[0]:
+            out.append(mm("error_vs_main", seen[0], env["error"]))
+    if error_made and env["error"] is None:
+        out.append(mm("error_lost", "error reported: an exception reached main()", {"error": None, "success": env["success"]}))
+    fault = op.get("fault")
+    if not error_made and not (fault and ev.get("fault_fired")) and api is not None and api.get("outcome") == "ok" and env["error"] is not None:
+        out.append(mm("spurious_error", None, env["error"]))
     for r in env["result"]:
         if isinstance(r, dict) and "count" in r and "paths" in r and r["count"] != len(r["paths"]):
             out.append(mm("count", len(r["paths"]), r["count"]))
